@@ -153,6 +153,16 @@ class CallMixin:
                 ci, meth = self.tree.lookup_method(base.cls, name)
                 if meth is not None and not getattr(meth, 'declaration_only', False):
                     ext = self.external_spec(['%s.%s' % (nm, name) for nm in self.tree.mro(base.cls)], fr)
+                    if ext is not None and ext.get('override') and ext.get('result') == 'auto':
+                        decl = None
+                        for nm in self.tree.mro(base.cls):
+                            cinfo = self.tree.class_info(nm)
+                            if cinfo is not None and name in cinfo.decl:
+                                decl = cinfo.decl[name]
+                                break
+                        ct = getattr(decl, 'ret_ctype', None) or getattr(meth, 'ret_ctype', None)
+                        ext = dict(ext, result=spec_from_ctype(ct) or 'ref')
+                        return self.apply_external(ext, '%s.%s' % (ci.name, name), base, args, kwargs, st, fr, node)
                     if ext is None or not ext.get('override'):
                         fv = FuncVal(ci.file, ci.name + '.' + name, meth, cls=ci.name)
                         return self.call_function(fv, [base] + list(args), kwargs, st, fr, node, dyn_cls=base.cls)
@@ -163,6 +173,13 @@ class CallMixin:
                 for nm in self.tree.mro(base.cls):
                     labels.append('%s.%s' % (nm, name))
             labels.append('.' + name)
+            if self.external_spec(labels, fr) is None:
+                # not a method: an attribute holding a callable object
+                has_attr = base.cls is None or self.tree.attr_ctype(base.cls, name) is not None or \
+                    name in self.contract.attrs or name in self.global_attrs
+                if has_attr:
+                    val = self.getattr_value(base, name, st, fr)
+                    return self.call_value(val, args, kwargs, st, fr, node)
             return self.call_external(labels, base, name, args, kwargs, st, fr, node)
         if isinstance(base, ModuleVal):
             return self.call_builtin(name if base.name in ('numpy', 'np', 'math', 'libc.math') else base.name + '.' + name,
@@ -414,15 +431,17 @@ class CallMixin:
 
     # ------------------------------------------------------------------ externals
     def external_spec(self, labels, fr):
-        for cc in (fr.contract, self.contract):
-            if cc is None:
-                continue
+        tables = [cc.externals for cc in (fr.contract, self.contract) if cc is not None] + [self.externals]
+        for tab in tables:
             for l in labels:
-                if l in cc.externals:
-                    return cc.externals[l]
-        for l in labels:
-            if l in self.externals:
-                return self.externals[l]
+                if l in tab:
+                    return tab[l]
+        for tab in tables:
+            for l in labels:
+                if '.' in l and not l.startswith('.'):
+                    w = l.rsplit('.', 1)[0] + '.*'
+                    if w in tab:
+                        return dict(tab[w], label=tab[w].get('label', l))
         return None
 
     def call_external(self, labels, recv, name, args, kwargs, st, fr, node):
@@ -433,6 +452,7 @@ class CallMixin:
 
     def apply_external(self, ext, label, recv, args, kwargs, st, fr, node):
         kind = ext.get('kind', 'pure')
+        args = [a[1] if isinstance(a, tuple) and len(a) == 2 and a[0] == '*' else a for a in args]
         self.assumptions.add('external %s: %s' % (ext.get('label', label), ext.get('doc', kind)))
         for exc in ext.get('raises', []):
             if exc in self.catching(fr):
@@ -469,6 +489,8 @@ class CallMixin:
             f = z3.Function('%s_%d' % (fname, len(terms)), *sorts, SORTS[key])
             term = f(*terms) if terms else z3.Const(fname, SORTS[key])
             res = self.wrap(term, rspec)
+            if ext.get('nonnull') and isinstance(res, Obj):
+                st.pc.append(res.ref != NONE)
             shape = ext.get('shape')
             if shape and isinstance(res, Obj):
                 st.pc.append(res.ref != NONE)
